@@ -10,6 +10,7 @@ import (
 	_ "verif/harness/mon/c04"
 	_ "verif/harness/mon/c05"
 	_ "verif/harness/mon/c06"
+	_ "verif/harness/mon/c07"
 	_ "verif/harness/mon/c08"
 	_ "verif/harness/mon/c09"
 	_ "verif/harness/mon/c10"
